@@ -391,7 +391,7 @@ class C17(Check):
     def cases(self, tier, seed):
         if tier != "quick":
             yield dict(kind="repo-tests-under-invariants")
-        n = 160 if tier == "quick" else 4000
+        n = 400 if tier == "quick" else 10000
         rng = np.random.default_rng([seed, 17])
         for i in range(n):
             yield dict(seed=seed * 100003 + i, bins=int(rng.integers(1, 9)), patches=int(rng.integers(1, 11)),
